@@ -37,7 +37,7 @@ use crate::common::{block_on_system, CaseResult, Ctx, Rng};
 
 const RULE: &str = "case = history of tokens through one service instance of a fixed app (nested scopes with scoped \
 app_data, named/unnamed/guarded resources, default service, app-level middleware): R = request (method, uri, version, \
-peer, headers, request-level extensions; handler actions: insert typed extensions, stash clones, never complete), \
+peer (set, unset, or never mentioned by the builder), headers, request-level extensions; handler actions: insert typed extensions, stash clones, never complete), \
 D/V/E/C = drop / dump / extend / clone a stashed handle, X = drop the service; histories of 1..40 tokens plus long ones \
 with >128 simultaneously live requests; a case is non-trivial if at least one request was served from a recycled \
 allocation (harness book-keeping of the pool); distinct = distinct (case, output) hashes";
@@ -231,6 +231,9 @@ struct ReqTok {
     uri: String,
     ver: String,
     peer: Option<u32>,
+    /// peer written as `~`: build the request with `actix_http::test::TestRequest` and do not
+    /// mention the peer address at all
+    raw: bool,
     hdrs: Vec<(String, String)>,
     reqdata: Vec<(u32, u32)>,
     acts: Vec<Act>,
@@ -309,7 +312,8 @@ fn parse_tok(t: &str) -> Tok {
                 method: method.to_string(),
                 uri: uri.to_string(),
                 ver: ver.to_string(),
-                peer: opt_nat(peer)?,
+                peer: if *peer == "~" { None } else { opt_nat(peer)? },
+                raw: *peer == "~",
                 hdrs: pairs(hdrs)?,
                 reqdata: nat_pairs(xd)?,
                 acts: if *acts == "-" { vec![] } else { acts.split(',').map(parse_act).collect::<Option<Vec<_>>>()? },
@@ -334,6 +338,20 @@ fn parse_tok(t: &str) -> Tok {
 
 fn build_request(sh: &Shared, r: &ReqTok) -> Request {
     use actix_web::http::{Method, Version};
+    if r.raw {
+        let mut t = actix_http::test::TestRequest::default();
+        t.method(Method::from_bytes(r.method.as_bytes()).unwrap_or(Method::GET)).uri(&r.uri).version(match r.ver.as_str() {
+            "10" => Version::HTTP_10,
+            "2" => Version::HTTP_2,
+            _ => Version::HTTP_11,
+        });
+        for (k, v) in &r.hdrs {
+            t.append_header((k.as_str(), v.as_str()));
+        }
+        let req = t.finish();
+        add_reqdata(sh, r, &req);
+        return req;
+    }
     let mut t = test::TestRequest::default()
         .method(Method::from_bytes(r.method.as_bytes()).unwrap_or(Method::GET))
         .uri(&r.uri)
@@ -349,6 +367,11 @@ fn build_request(sh: &Shared, r: &ReqTok) -> Request {
         t = t.append_header((k.as_str(), v.as_str()));
     }
     let req = t.to_request();
+    add_reqdata(sh, r, &req);
+    req
+}
+
+fn add_reqdata(sh: &Shared, r: &ReqTok, req: &Request) {
     for (ty, v) in &r.reqdata {
         let a = Alive::new(&sh.ext_alive);
         match ty {
@@ -364,7 +387,6 @@ fn build_request(sh: &Shared, r: &ReqTok) -> Request {
             _ => {}
         }
     }
-    req
 }
 
 /// tokens that act on stashed handles only (same in both modes)
@@ -863,7 +885,12 @@ fn gen_uri(rng: &mut Rng) -> String {
 fn gen_req(rng: &mut Rng, slots: u32) -> String {
     let method = *rng.pick(&["GET", "GET", "POST", "PUT"]);
     let ver = *rng.pick(&["11", "11", "10", "2"]);
-    let peer = if rng.chance(1, 3) { rng.range(1000, 1003).to_string() } else { "-".into() };
+    // `~`: built with actix_http's TestRequest, which never mentions the peer address
+    let peer = match rng.below(6) {
+        0 | 1 => rng.range(1000, 1003).to_string(),
+        2 => "~".into(),
+        _ => "-".into(),
+    };
     let mut hdrs = Vec::new();
     for _ in 0..rng.below(4) {
         hdrs.push(format!("{}={}", rng.pick(&["x-a", "x-b", "x-g", "x-g", "x-z", "host"]), rng.pick(&["1", "2", "v"])));
